@@ -2,6 +2,15 @@
 import numpy as np
 
 
+def _mask_of(e):
+    """the mask of an index object: an array, or - when the entry says so and all bits agree - the single
+    bool that means the same (the answer must not depend on the representation)"""
+    m = np.array(e['m'], dtype=bool).reshape(e['shape'])
+    if e.get('mscalar') and m.size and (m.all() or not m.any()):
+        return bool(m.flat[0])
+    return m
+
+
 def to_impl(entries, P):
     """Build the Python index object from entry records; P = polymath module."""
     out = []
@@ -22,20 +31,20 @@ def to_impl(entries, P):
             if e['m'] is None:
                 out.append(P.Scalar(v) if e.get('obj') else v)
             else:
-                out.append(P.Scalar(v, np.array(e['m'], dtype=bool).reshape(e['shape'])))
+                out.append(P.Scalar(v, _mask_of(e)))
         elif k == 'barr':
             v = np.array(e['v'], dtype=bool).reshape(e['shape'])
             if e['m'] is None:
                 out.append(P.Boolean(v) if e.get('obj') else v)
             else:
-                out.append(P.Boolean(v, np.array(e['m'], dtype=bool).reshape(e['shape'])))
+                out.append(P.Boolean(v, _mask_of(e)))
         elif k == 'vec':
             v = np.array(e['v'], dtype=int).reshape(list(e['shape']) + [e['n']])
             cls = P.Pair if e['n'] == 2 else P.Vector
             if e['m'] is None:
                 out.append(cls(v))
             else:
-                out.append(cls(v, np.array(e['m'], dtype=bool).reshape(e['shape'])))
+                out.append(cls(v, _mask_of(e)))
         elif k == 'bad':
             w = e['what']
             out.append({'float': 1.5, 'str': 'a', 'farr': np.array([0.5, 1.0]),
@@ -84,7 +93,7 @@ def gen_entry(rng, kind, axis_len, shape_rest):
             m = [rng.random() < 0.4 for _ in range(n)]
         elif r < 0.42:
             m = [True] * n
-        return {'k': 'iarr', 'shape': shp, 'v': vals, 'm': m, 'obj': rng.random() < 0.5}
+        return {'k': 'iarr', 'shape': shp, 'v': vals, 'm': m, 'obj': rng.random() < 0.5, 'mscalar': rng.random() < 0.5}
     if kind == 'barr':
         nd = 1 if (len(shape_rest) < 2 or rng.random() < 0.7) else 2
         shp = list(shape_rest[:nd])
@@ -93,9 +102,14 @@ def gen_entry(rng, kind, axis_len, shape_rest):
         n = int(np.prod(shp))
         vals = [rng.random() < 0.5 for _ in range(n)]
         m = None
-        if rng.random() < 0.35:
+        r = rng.random()
+        if r < 0.35:
             m = [rng.random() < 0.3 for _ in range(n)]
-        return {'k': 'barr', 'shape': shp, 'v': vals, 'm': m, 'obj': rng.random() < 0.5}
+        elif r < 0.45:
+            m = [True] * n
+        elif r < 0.50:
+            m = [False] * n
+        return {'k': 'barr', 'shape': shp, 'v': vals, 'm': m, 'obj': rng.random() < 0.5, 'mscalar': rng.random() < 0.5}
     if kind == 'vec':
         nn = 2 if (len(shape_rest) < 3 or rng.random() < 0.7) else 3
         shp = list(rng.choice([(2,), (1,), (2, 2), ()]))
@@ -109,9 +123,12 @@ def gen_entry(rng, kind, axis_len, shape_rest):
                 else:
                     vals.append(L + 1)
         m = None
-        if rng.random() < 0.3:
+        r = rng.random()
+        if r < 0.3:
             m = [rng.random() < 0.4 for _ in range(cnt)]
-        return {'k': 'vec', 'n': nn, 'shape': shp, 'v': vals, 'm': m}
+        elif r < 0.38:
+            m = [True] * cnt
+        return {'k': 'vec', 'n': nn, 'shape': shp, 'v': vals, 'm': m, 'mscalar': rng.random() < 0.5}
     raise ValueError(kind)
 
 
@@ -325,6 +342,8 @@ def gen_object(rng, shape, classes=None, base=0, nderiv=None, isint=None):
             mr, mk = gen_mask(rng, shape, rng.choice(['F', 'F', 'arr', 'same']) if shape else None) \
                 if rng.random() < 2 else None
             d['derivs'][key] = {'denom': list(denom), 'mrep': mr, 'mask': mk}
+            if shape and rng.random() < 0.2:
+                d['derivs'][key].update({'bcast': True, 'mrep': 'F', 'mask': [False] * int(np.prod(shape))})
         for key in d['derivs']:
             if d['derivs'][key]['mrep'] == 'same':
                 d['derivs'][key]['mrep'], d['derivs'][key]['mask'] = mrep, list(mask)
@@ -357,8 +376,13 @@ def build_object(d, P):
         dsz = int(np.prod(denom))
         dv = (d['base'] + 10000 * (DKEY_NUM[key] + 1) + np.arange(n * isz * dsz)).astype(float)
         dv = dv.reshape(shape + item + denom)
-        dobj = cls(dv if dv.shape else dv.item(), _mask_obj(dd['mrep'], dd['mask'], shape),
-                   drank=len(denom))
+        if dd.get('bcast') and shape and n:
+            # a derivative given without leading axes: insert_deriv broadcasts it (read-only) to the object's shape
+            one = dv[(0,) * len(shape)]
+            dobj = cls(one if one.shape else one.item(), False, drank=len(denom))
+        else:
+            dobj = cls(dv if dv.shape else dv.item(), _mask_obj(dd['mrep'], dd['mask'], shape),
+                       drank=len(denom))
         obj.insert_deriv(key, dobj)
     return obj
 
